@@ -174,9 +174,7 @@ def run_case(ctx, case, model=True):
             ctx.count("op_rejected", f"{kind}:{core.error_class(e)}")
             # the emission query may refuse a record (a user-specified fuel without factors, a consumer class the table has no row for);
             # adding, scaling, fractions and totals are defined for every record of the property's domain
-            operands = [pool[x] for x in (op.get("i"), op.get("j")) if x is not None]
-            mixed_shapes = any(len({np.shape(f.mass_or_mass_fraction) for f in r.fuels}) > 1 for r in operands)
-            if kind != "emissions" and not mixed_shapes:       # one record holding scalar and series masses side by side is not a record of the domain
+            if kind != "emissions":       # (a record may hold a constant next to a series: it counts for every sample - D40)
                 ctx.fail("predicate", f"{kind}-raises-{core.error_class(e)}", f"{type(e).__name__}: {e}", where)
             after = [F.rec_snapshot(r) for r in pool]
             check_unchanged(ctx, kind, before, after, where)
